@@ -153,16 +153,21 @@ def _canonical(prog):
     return {"functions": out, "globals": {k: str(v) for k, v in sorted(prog.Globals.items())}}
 
 
-def _observe(prog, sc, set_globals=True):
+def _observe(prog, sc, set_globals=True, vm=None, part=None):
+    """Run the observation history on a VM of prog.  part=(lo, hi) runs only that slice of the
+    history (on the given, already used VM when vm is not None) and returns (vm, entries)."""
     from nsl import VM
 
-    vm = VM.VirtualMachine(prog)
+    fresh = vm is None
+    if fresh:
+        vm = VM.VirtualMachine(prog)
     out = []
-    if set_globals:
+    if set_globals and fresh:
         for g in sorted(prog.Globals):
             if g in sc["ginit"]:
                 vm.SetGlobal(g, copy.deepcopy(sc["ginit"][g]))
-    for h in sc["hist"]:
+    hist = sc["hist"] if part is None else sc["hist"][part[0]:part[1]]
+    for h in hist:
         if h["f"] not in prog.Functions:
             out.append([h["f"], "absent"])
             continue
@@ -172,8 +177,10 @@ def _observe(prog, sc, set_globals=True):
             out.append([h["f"], "ret", jsonable(r)])
         except Exception as e:
             out.append([h["f"], "exc", type(e).__name__])
+    if part is not None and part[1] < len(sc["hist"]):
+        return vm, out
     out.append(["globals", {g: jsonable(vm.GetGlobal(g)) for g in sorted(prog.Globals)}])
-    return out
+    return (vm, out) if part is not None else out
 
 
 def _obs_equal(a, b):
@@ -295,6 +302,7 @@ def _execute(sc, store):
         bump("shape_function_uses_imported_global")
 
     alive = []  # programs linked earlier in this scenario: (program, its observation, description)
+    live_vms = []  # (program, VM that has run the first half of the history, its entries, half, description)
     variants = {}  # module -> variant of the latest stored compile (current generation)
     inmem = {}  # module -> IR module object of the latest compile
     cur_gen = None
@@ -535,6 +543,20 @@ def _execute(sc, store):
                     f"single={refobs[k] if k is not None and k < len(refobs) else refobs[-1]!r}",
                     finding_key="behaviour" + ("-gen2" if gen > 0 else "") + ("-recompiled" if variants else ""),
                 )
+            for oprog, lvm, first, half, odesc in live_vms:
+                _vm, rest = _observe(oprog, sc, vm=lvm, part=(half, len(sc["hist"])))
+                bump("live_vms_resumed_after_a_later_link")
+                want = next((o for p_, o, _d in alive if p_ is oprog), None)
+                if want is not None and not _flat_equal(first + rest, want):
+                    return done(
+                        "violation",
+                        "earlier-program-changed",
+                        f"a VM of the program linked earlier ({odesc}) was used for the first {half} history steps before "
+                        f"and for the rest after linking and running add={names_add}: it gives {(first + rest)[half:half + 3]!r}..., "
+                        f"a VM that ran the whole history at once gave {want[half:half + 3]!r}...",
+                        finding_key="earlier-program-changed-live-vm",
+                    )
+            live_vms[:] = []
             # a program linked earlier (from the same module objects, against an older state of
             # the store) is a value of its own: linking another program must not change it
             for oprog, oobs, odesc in alive[-2:]:
@@ -550,6 +572,11 @@ def _execute(sc, store):
                         f"{oobs[k] if k is not None and k < len(oobs) else oobs[-1]!r}",
                         finding_key="earlier-program-changed",
                     )
+            # ... and a VM of it stays in use: the first half of the history now, the rest after the
+            # next program has been linked and run
+            half = len(sc["hist"]) // 2
+            lvm, first = _observe(prog, sc, vm=None, part=(0, half))
+            live_vms[:] = live_vms[-1:] + [(prog, lvm, first, half, f"add={names_add}, generation {gen}")]
             alive.append((prog, obs, f"add={names_add}, generation {gen}, variants {dict(variants)}"))
             can = _canonical(prog)
             ck = "state"
@@ -619,6 +646,26 @@ def _link_nslr(sc, st, add, refmod, store, log, bump):
     with open(one, "wb") as f:
         pickle.dump(refmod, f)
     n = 0
+    decoy = None
+    if st["hs"] % 2 == 0 and len(mods) > 1:
+        # the root module is started through a path into another directory that also holds
+        # *other* builds of the imported modules (an old dist/ folder): imports are resolved
+        # against the current directory, exactly as they were when the root was compiled
+        decoy = "dist_old"
+        os.makedirs(decoy, exist_ok=True)
+        shutil.copy(root, os.path.join(decoy, root))
+        for m in range(len(mods)):
+            if m == add[0]:
+                continue
+            dm, status, _why = _compile_inproc(gen16.module_src(sc, m, st["gen"], 23))
+            if dm is None:
+                decoy = None
+                break
+            with open(os.path.join("dist_old", mods[m]["name"] + ".nslir"), "wb") as f:
+                pickle.dump(dm, f)
+        if decoy:
+            bump("nslr_root_started_from_decoy_directory")
+            root = os.path.join(decoy, root)
 
     def outcome(code, out, err):
         lines = [l for l in out.splitlines() if l.strip()]
@@ -656,6 +703,8 @@ def _link_nslr(sc, st, add, refmod, store, log, bump):
     finally:
         if os.path.exists(one):
             os.unlink(one)
+        if decoy:
+            shutil.rmtree("dist_old", ignore_errors=True)
     return None
 
 
